@@ -350,12 +350,25 @@ def check_accessor(o, matching, pdu):
         ensures("other-accessor-raises-TypeError", o.raised(TypeError))
 
 
+def use_everything(h):
+    """take every view of a holder once (whatever an implementation might cache gets filled)"""
+    outcome(h.to_file_data_pdu), outcome(h.to_eof_pdu), outcome(h.to_finished_pdu), outcome(h.to_ack_pdu)
+    outcome(h.to_metadata_pdu), outcome(h.to_nak_pdu), outcome(h.to_prompt_pdu), outcome(h.to_keep_alive_pdu)
+    h.packet_len, h.pdu_type, h.is_file_directive, h.pdu_directive_type
+
+
 @obligation(["C12"], "PduHolder/accessor-matrix", verifies=HOLDER)
 def holder_matrix(held: Choice(0, 4, 5, 6, 7, 8, 9, 12), mode: EnumOf(TransmissionMode), crc: EnumOf(CrcFlag), large: EnumOf(LargeFileFlag),
-                  wh: Choice(1, 8)):
+                  wh: Choice(1, 8), held_before: Choice(None, 0, 4, 6, 12)):
     conf = mk_conf(wh, wh, 1, 2, 3, mode, crc, large, Direction.TOWARDS_RECEIVER, SegmentationControl.NO_RECORD_BOUNDARIES_PRESERVATION)
     pdu = build_kind(held, conf)
-    h = PduHolder(pdu)
+    if held_before is None:
+        h = PduHolder(pdu)
+    else:
+        # a holder that is re-used: it held (and was asked about) another PDU before
+        h = PduHolder(build_kind(held_before, conf))
+        use_everything(h)
+        h.pdu = pdu
     check_accessor(outcome(h.to_file_data_pdu), held == 0, pdu)
     check_accessor(outcome(h.to_eof_pdu), held == DC_EOF, pdu)
     check_accessor(outcome(h.to_finished_pdu), held == DC_FINISHED, pdu)
